@@ -83,6 +83,18 @@ Definition run_closure (F : sym_facts) (m : smodel) (t : Q) (x : list Q) : clo_o
   | CMat rows => ObsCloMat rows
   end.
 
+(** ... of a simulator constructed with y0 = a mapping whose keys are in the order [y0keys] *)
+Definition run_closure_y0 (F : sym_facts) (m : smodel) (y0keys : list name) (t : Q) (x : list Q) : clo_obs :=
+  match init_jac_y0 fsym_lib D F m y0keys with
+  | None => ObsCloErr ErrUnmodelled
+  | Some js =>
+      match call_closure_at F m js None t x with
+      | CNoJac => ObsNoJac
+      | CErr e => ObsCloErr e
+      | CMat rows => ObsCloMat rows
+      end
+  end.
+
 Definition sym_obs_eqb (a b : sym_obs) : bool :=
   match a, b with
   | ObsErr x, ObsErr y => err_eqb x y
@@ -113,7 +125,9 @@ Record case := mkCase {
   k_rhs : list Q ;                 (* implementation: model(t, x) *)
   k_raw : raw_stoich ;             (* the model's own stoichiometries (reaction -> compound -> factor) *)
   k_parnames : list name ;         (* keys of cache.all_parameter_values (= all_parameter_names) *)
-  k_pv : list (name * Q)           (* cache.all_parameter_values *)
+  k_pv : list (name * Q) ;         (* cache.all_parameter_values *)
+  k_y0keys : list name ;           (* key order of the y0 mapping a second simulator was constructed with *)
+  k_clo_y0 : clo_obs               (* implementation: Simulator(m, y0=<that mapping>, ...).integrator.jacobian(t, x) *)
 }.
 
 (** the coefficient tables of the cache (inputs of the conversion) are what [build_tables] makes of
@@ -133,9 +147,14 @@ Definition surr_ok (c : case) : bool :=
   forallb (fun s => forallb (fun o => Qeq_bool (env (fst o)) (fsem_lib (snd o) (map env (su_args (snd s))))) (su_outs (snd s)))
           (m_surr (k_model c)).
 
+Definition varsym_known (F : sym_facts) : bool :=
+  match sf_varsym F with VarSymUnknown => false | _ => true end.
+
 Definition case_ok (F : sym_facts) (c : case) : bool :=
-  sym_obs_eqb (run_sym F (k_model c) (k_point c)) (k_sym c)
+  varsym_known F
+  && sym_obs_eqb (run_sym F (k_model c) (k_point c)) (k_sym c)
   && clo_obs_eqb (run_closure F (k_model c) (k_time c) (k_x c)) (k_clo c)
+  && clo_obs_eqb (run_closure_y0 F (k_model c) (k_y0keys c) (k_time c) (k_x c)) (k_clo_y0 c)
   && qlist_eqb (run_num_rhs (k_model c) (k_rates c)) (k_rhs c)
   && tables_ok c
   && qlist_eqb (run_raw_rhs c) (k_rhs c)
